@@ -317,6 +317,48 @@ func runC11(c *eng.Ctx) {
 	c.Rule("PASS", "tsdb/tblstore/metricsdata.seriesMerger.merge{one FlushField per target field}", func() { flushFieldPerTargetField(c) })
 	c.Rule("PASS", "index.forwardIndex.GetGroupingContext{intersection per group-by tag key}", func() { groupingIntersectsPerTagKey(c) })
 	c.Rule("PROV", "tsdb/memdb.memoryDatabase.createdTime{unique per memory database}", func() { memdbIdentityUnique(c) })
+	c.Rule("PROV", "flow.DataLoadContext.IterateLowSeriesIDs{storage position = number of elements passed}", func() {
+		f := c.Fn("flow.DataLoadContext.IterateLowSeriesIDs")
+		calls := c.Some(f, eng.CallTo("param:fn"), "fn(seriesIdxFromQuery, seriesIdxFromStorage)")
+		for i, cl := range calls {
+			pos := eng.CallArgs(cl.Instr.(ssa.CallInstruction))[1]
+			ph, ok := eng.Unwrap(pos).(*ssa.Phi)
+			if !ok {
+				c.Check(false, fmt.Sprintf("position-is-a-counter[%d]", i), cl.Instr, f, "the storage position handed to the callback is a loop counter", "position "+p.Desc(pos))
+				continue
+			}
+			// every value the counter can take: 0 at entry, otherwise counter + 1
+			seen := map[*ssa.Phi]bool{}
+			bad := ""
+			var walk func(x *ssa.Phi)
+			walk = func(x *ssa.Phi) {
+				if seen[x] {
+					return
+				}
+				seen[x] = true
+				for _, e := range x.Edges {
+					e = eng.Unwrap(e)
+					if k, isC := eng.ConstInt(e); isC && k == 0 {
+						continue
+					}
+					if p2, isPhi := e.(*ssa.Phi); isPhi {
+						walk(p2)
+						continue
+					}
+					base, k := eng.SplitConstAdd(e)
+					if p2, isPhi := eng.Unwrap(base).(*ssa.Phi); isPhi && k == 1 {
+						walk(p2)
+						continue
+					}
+					bad = p.Desc(e)
+				}
+			}
+			walk(ph)
+			c.Check(bad == "", fmt.Sprintf("position-is-a-counter[%d]", i), cl.Instr, f,
+				"the position of a series in the storage block is counted element by element (0, then +1 for every id passed): a rank computed for an id that is NOT in the block is the position of its predecessor",
+				"the counter can take the value "+bad)
+		}
+	})
 	c.Rule("RESET", mfT+".reset{per-metric state of the block writer}", func() { flusherMetricReset(c) })
 	c.Rule("LAYOUT", "tsdb/tblstore/metricsdata{block footer}", func() { blockFooter(c) })
 	c.Rule("EXHAUSTIVE", "series/field{type tables}", func() { fieldTypeTables(c) })
